@@ -618,7 +618,9 @@ def c20(run):
     texts = list(toks) + [a + " " + b for a in toks for b in toks]
     if q:
         pairs = texts[len(toks):]; rng.shuffle(pairs)
-        texts = list(toks) + pairs[:160]
+        # quick tier: all singles, every (lexical-state-changing token, m4 quote) pair, plus a seeded sample of the rest
+        core = [a + " " + b for a in ("'", "\\", "`'", "/*", "//", "*/", "#", "{}") for b in ("[[", "]]", "]]]", "[[[", "$1", "m4_dnl")]
+        texts = list(toks) + core + pairs[:120]
     jobs = [(t, False, ()) for t in texts] + [(t, True, ()) for t in toks[:8]] + [(t, False, ("-Cf",)) for t in toks[:6]]
     with cf.ThreadPoolExecutor(units.NCPU) as ex:
         res = list(ex.map(lambda j: U.observe(fd, j[0], noline=j[1], cfgargs=j[2]), jobs))
